@@ -938,7 +938,13 @@ fn parse_elisp_escape<'de, R: Read<'de>>(
     match ch {
         b'"' => scratch.push(b'"'),
         b'\\' => scratch.push(b'\\'),
-        b' ' => {} // Escaped blank is ignored
+        b' ' => {
+            // Escaped blank is ignored. A continuation byte cannot follow it in
+            // valid UTF-8; it would join the bytes in front of the backslash.
+            if let Some(0x80..=0xBF) = read.peek()? {
+                return error(read, ErrorCode::InvalidUnicodeCodePoint);
+            }
+        }
         b'a' => scratch.push(0x07),
         b'b' => scratch.push(0x08),
         b't' => scratch.push(b'\t'),
